@@ -60,6 +60,7 @@ EXTRA_OPTS = {
     "empty_item_single_line": [True, False], "remove_nested_parens": [True, False], "merge_derives": [True, False],
     "use_try_shorthand": [True, False], "use_field_init_shorthand": [True, False], "force_explicit_abi": [True, False],
     "skip_children": [True, False], "disable_all_formatting": [False, False, True],
+    "format_generated_files": [True, False], "generated_marker_line_search_limit": [0, 1, 5],
 }
 SITES = ["parser_new", "parse_crate_mod", "parse_file_as_module", "rewrite_macro", "format_snippet", "parse_cfg_if"]
 _corpus = None
@@ -160,11 +161,18 @@ def generate(rng, tier):
     if rng.chance(15):
         depth = rng.choice([4, 8, 16, 24, 32])
         text = rustlex.amplify(rng, text, depth)
+    # whole-file opt-outs and verbosity: paths that bypass the formatting phase altogether
+    optout = rng.choice([None] * 8 + ["innerskip", "generated", "ignored"])
+    if optout == "innerskip":
+        text = "#![rustfmt::skip]\n" + text
+    elif optout == "generated":
+        text = "// @generated\n" + text
     badutf8 = rng.chance(3)
     delivery = rng.choice(["root", "root", "module", "module", "stdin"])
     return {"lane": "B", "source": name, "text": text, "mutations": desc, "depth": depth, "badutf8": badutf8,
             "delivery": delivery, "config": draw_config(rng), "hashseed": rng.below(1 << 32),
-            "via": rng.choice(["file", "file", "cli", "configpath"]), "emit": rng.choice([[], [], ["--check"], ["--emit", "stdout"], ["--emit", "json"]])}
+            "via": rng.choice(["file", "file", "cli", "configpath"]) if optout != "ignored" else "file", "optout": optout,
+            "emit": rng.choice([[], [], ["--check"], ["--emit", "stdout"], ["--emit", "json"]]) + rng.choice([[], [], [], ["-v"], ["-q"]])}
 
 
 LANE_C_SRC = '''/// Example:
@@ -193,8 +201,10 @@ def execute(case):
         argv = list(case["emit"])
         if case["delivery"] == "stdin" and argv == []:
             pass
+        if case.get("optout") == "generated" and case["hashseed"] % 2:
+            cfg["format_generated_files"] = False
         if case["via"] == "file":
-            files["w/rustfmt.toml"] = gen_config.render(cfg)
+            files["w/rustfmt.toml"] = gen_config.render(cfg) + ('ignore = ["input.rs"]\n' if case.get("optout") == "ignored" else "")
         elif case["via"] == "configpath":
             # an explicit config in another directory, sometimes with an ignore list
             txt = gen_config.render(cfg)
@@ -215,8 +225,7 @@ def execute(case):
             inv["argv"] = argv + ["main.rs" if case["hashseed"] % 3 else "$ROOT/w/main.rs"]
         else:
             files["w/.keep"] = ""
-            if case["emit"] == ["--check"] or not case["emit"] or case["emit"][0] == "--emit":
-                inv["argv"] = [a for a in argv]
+            inv["argv"] = list(argv)
             inv["stdin"] = spec
         sc.fresh_world({"files": files})
         res = core.run_inv(sc, inv)
